@@ -3,6 +3,7 @@ module verif/harness
 go 1.21.0
 
 require (
+	github.com/EliCDavis/iter v1.0.2
 	github.com/EliCDavis/jbtf v0.2.0
 	github.com/EliCDavis/polyform v0.0.0
 	github.com/EliCDavis/vector v1.8.0
@@ -10,7 +11,6 @@ require (
 
 require (
 	github.com/EliCDavis/bitlib v1.2.0 // indirect
-	github.com/EliCDavis/iter v1.0.2 // indirect
 	github.com/EliCDavis/sfm v1.2.0 // indirect
 	github.com/fogleman/gg v1.3.0 // indirect
 	github.com/golang/freetype v0.0.0-20170609003504-e2365dfdc4a0 // indirect
